@@ -1513,7 +1513,140 @@ def check_C14(run, replay=None):
     return run.finish()
 
 
-CHECKS = {"C14": check_C14, "C01": check_C01, "C02": check_C02, "C10": check_C10, "C09": check_C09, "C12": check_C12, "C15": check_C15, "C19": check_C19, "C13": check_C13, "C03": check_C03, "C04": check_C04, "C05": check_C05, "C06": check_C06, "C07": check_C07, "C08": check_C08, "C11": check_C11, "C16": check_C16, "C17": check_C17}
+# ---- C18: $ref == inline ---------------------------------------------------------
+
+def c18_obs(case, im):
+    """canonical observation of one variant"""
+    kv = parse_kv(im)
+    if case.startswith("RV "):
+        w = kv.get("wire")
+        if not w:
+            return ("NOOBS", im[:200])
+        f = w.split(",")
+        hdr = bytes.fromhex(f[1]).decode("latin1") if len(f) > 1 and f[1] != "-" else ""
+        return ("wire",) + c10_wire_canon(w, "application/json" in hdr)
+    st = kv.get("status", "CRASH" if im.startswith("CRASH") else "?")
+    parse = kv.get("parse", "-")
+    if parse.startswith("Err("):
+        parse = "Err"          # (messages name Go types, which legitimately differ between the variants)
+    elif parse.startswith("Panic("):
+        parse = "Panic"
+    else:
+        parse = canon_dump(parse)
+    re_ = kv.get("reenc", "-")
+    if re_.startswith("json:"):
+        re_ = "json:" + canon_json_bytes(bytes.fromhex(re_[5:]) if re_[5:] != "-" else b"")
+    elif re_.startswith("marshalerr:"):
+        re_ = "marshalerr"
+    # (the response the driver's stand-in handler returns is its own choice among the documented ones: responses are compared by the RV lines)
+    return ("req", st, kv.get("wh"), parse, re_)
+
+
+def doc_has_allof_member_with_addl(doc):
+    """D28's shape in an OpenAPI document: an allOf member (inline or behind $ref) that declares additionalProperties"""
+    comps = (doc.get("components") or {}).get("schemas") or {}
+
+    def resolve(s, depth=0):
+        while isinstance(s, dict) and "$ref" in s and depth < 20:
+            s = comps.get(s["$ref"].rsplit("/", 1)[-1], {})
+            depth += 1
+        return s if isinstance(s, dict) else {}
+
+    found = [False]
+
+    def walk(x):
+        if isinstance(x, dict):
+            for m in x.get("allOf") or []:
+                if resolve(m).get("additionalProperties") not in (None, False):
+                    found[0] = True
+            for v in x.values():
+                walk(v)
+        elif isinstance(x, list):
+            for v in x:
+                walk(v)
+    walk(doc)
+    return found[0]
+
+
+def check_C18(run, replay=None):
+    proof_ok = run.proof_side()
+    cases, impl, model, meta = run.run_vh(["-cases", replay] if replay else None, timeout=6000)
+    dline = {}
+    variant = {}
+    for c in cases:
+        if c.startswith("D "):
+            f = c.split(" ")
+            dline[f[1]] = " ".join(f[:4])
+            m = re.search(r"#variant=(\S+)", c)
+            variant[f[1]] = m.group(1) if m else "?"
+    nbad = fam_report_bad_packages(run, meta)
+    groups = {}
+    for i, c in enumerate(cases):
+        m = re.search(r"#grp=(\d+)", c)
+        if not m or impl[i].startswith("SKIP"):
+            continue
+        groups.setdefault(m.group(1), []).append(i)
+    n_groups = n_obs = 0
+    kinds = {}
+    bad = []
+    d28_docs = {}
+    for g, idxs in groups.items():
+        if len(idxs) < 2:
+            continue
+        n_groups += 1
+        obs = [c18_obs(cases[i], impl[i]) for i in idxs]
+        n_obs += len(obs)
+        k = obs[0][0] + ":" + (str(obs[0][1]) if obs[0][0] == "req" else str(obs[0][1]))
+        kinds[k] = kinds.get(k, 0) + 1
+        if any(o != obs[0] for o in obs[1:]):
+            # D46: a nil top-level array body re-encodes as null when the array is defined inline (plain Go slice) and as [] when it is
+            # a component (generated MarshalJSON)
+            if obs[0][0] == "req" and all(o[:4] == obs[0][:4] for o in obs) and len(set(o[4].replace("[]", "null") for o in obs)) == 1 \
+                    and any(k["signature"] == "nil_array_body_null_vs_empty" for k in run.known):
+                run.known_hit("nil_array_body_null_vs_empty", re.sub(r" #grp=\d+", "", cases[idxs[0]])[:160])
+                continue
+            # D28: additionalProperties on an allOf member (captures sibling keys when embedded, ignored when the member is inline)
+            if obs[0][0] == "req" and all(o[:4] == obs[0][:4] for o in obs) and any(k["signature"] == "embedded_member_with_additional_properties" for k in run.known):
+                pkg0 = cases[idxs[0]].split(" ")[1]
+                if pkg0 not in d28_docs:
+                    try:
+                        d28_docs[pkg0] = doc_has_allof_member_with_addl(json.loads(bytes.fromhex(dline[pkg0].split(" ")[2])))
+                    except Exception:
+                        d28_docs[pkg0] = False
+                if d28_docs[pkg0]:
+                    run.known_hit("embedded_member_with_additional_properties", re.sub(r" #grp=\d+", "", cases[idxs[0]])[:160])
+                    continue
+            bad.append((sum(len(cases[i]) for i in idxs), g, idxs, obs))
+    bad.sort()
+    for (_, g, idxs, obs) in bad[:3]:
+        pk = [cases[i].split(" ")[1] for i in idxs]
+        run.violation({"property": run.prop, "case": None, "context": [dline.get(p, "") for p in pk] + [re.sub(r" #grp=\d+", "", cases[i]) + " #grp=1" for i in idxs],
+                       "variants": {variant.get(p, p): repr(o)[:1500] for p, o in zip(pk, obs)},
+                       "broken": "the same input is treated differently by the packages generated from the document as written, with every "
+                                 "$ref inlined, and with every inline definition hoisted into components"}, g)
+    run.coverage.update({
+        "rule": "kitchen-sink documents (as C14: typed path variables, query/header parameters, JSON bodies incl. allOf with $ref members, raw "
+                "bodies, security, CORS, base paths, responses with typed headers and JSON/raw bodies, some through components) x 3 variants: as "
+                "written, InlineAll (every schema/parameter/header/request-body/response reference, through alias chains, replaced by a copy of its "
+                "target), HoistAll (every inline parameter, response, request body, scalar response header and schema moved to components); the "
+                "three packages get the same structured/mutated raw requests (status, WriteHeader count, parsed parameters, the JSON the parsed "
+                "body re-encodes to or its raw bytes, response status/headers) and the same response values for every documented response (wire "
+                "status, headers, canonical JSON or raw body); all variants of a group must agree.",
+        "evaluations": n_obs, "groups": n_groups, "group_kinds": kinds, "disagreeing_groups": len(bad),
+        "programs": meta.get("packages_ok", 0), "packages_not_built": nbad,
+        "input_distribution": {k: v for k, v in meta.items() if k != "packages_bad"},
+        "trusted_base": TRUSTED_COMMON + [
+            "the rewrites InlineAll / HoistAll of harness/internal/dialect (that they preserve the meaning of the document is the premise of "
+            "the comparison); parse errors are compared as accept/reject (messages name Go types)",
+            "the theorems are about the models' reference-blindness and the embedded-member/inline-member equivalence of the JSON encoder model; "
+            "the generator's resolution of references itself (specification.Ref) is exercised by this run, not modelled"],
+    })
+    if not proof_ok:
+        run.violation(dict(getattr(run, "coq_failure", {}), input=None), None, note="no-failing-input-found")
+    return run.finish()
+
+
+CHECKS = {"C18": check_C18, "C14": check_C14, "C01": check_C01, "C02": check_C02, "C10": check_C10, "C09": check_C09, "C12": check_C12, "C15": check_C15, "C19": check_C19, "C13": check_C13, "C03": check_C03, "C04": check_C04, "C05": check_C05, "C06": check_C06, "C07": check_C07, "C08": check_C08, "C11": check_C11, "C16": check_C16, "C17": check_C17}
 
 
 def setup():
